@@ -1055,6 +1055,10 @@ PANIC_CALLS = [
     (r'::windows$', 'chunks'),
     (r'^std::cell::RefCell::<T>::borrow(_mut)?$', 'refcell'),
     (r'::unreachable', 'panic'),
+    (r'::with_capacity$', 'alloc'),
+    (r'::reserve(_exact)?$', 'alloc'),
+    (r'^std::vec::from_elem$', 'alloc'),
+    (r'::resize$', 'alloc'),
 ]
 _PANIC_RX = [(re.compile(p), k) for p, k in PANIC_CALLS]
 
